@@ -279,8 +279,12 @@ def run_once(workdir, name, plan, reference=None):
         mod, args, root, datasets = setup(name, sandbox)
         report = os.path.join(sandbox, "report.json")
         pre = snapshot(datasets)       # what the destination held before the command
-        env = dict(os.environ, PYTHONDONTWRITEBYTECODE="1", TMPDIR=sandbox)
-        p = subprocess.run([sys.executable, CHILD, root, json.dumps(plan) if plan else "null", report, mod] + args,
+        # the tool's temporary files (sharded writer) go to a directory of their own,
+        # whose I/O calls are enumerated like those of the dataset
+        tmpd = os.path.join(sandbox, "tmp")
+        os.makedirs(tmpd, exist_ok=True)
+        env = dict(os.environ, PYTHONDONTWRITEBYTECODE="1", TMPDIR=tmpd)
+        p = subprocess.run([sys.executable, CHILD, root + "|" + tmpd, json.dumps(plan) if plan else "null", report, mod] + args,
                            env=env, capture_output=True, text=True, timeout=120)
         rep = {"calls": [], "fired": False, "crashed": False}
         if os.path.exists(report):
@@ -327,6 +331,8 @@ def to_case(run, ref, plan):
 def plans_for(calls, rng, limit=None, crash=True):
     plans = []
     for k, (kind, rel) in enumerate(calls):
+        if kind == "unlink" and rel.startswith("../tmp/") and rel.count("/") == 2:
+            continue      # the standard library's own writability probe of TMPDIR, not the tool's I/O
         for err in ERRORS_FOR.get(kind, ["EIO"])[:1]:
             plans.append({"k": k, "mode": "fail", "err": err})
         if crash and kind in ("write", "open", "close", "seek"):
